@@ -106,9 +106,21 @@ def _replace(obj, **kwargs):
 
 
 class _VarArgsRemover(ast.NodeTransformer):
-    def __init__(self, drop_args, drop_kwargs):
+    def __init__(self, drop_args, drop_kwargs, vararg_name=None, kwarg_name=None):
         self.drop_args = drop_args
         self.drop_kwargs = drop_kwargs
+        self.vararg_name = vararg_name
+        self.kwarg_name = kwarg_name
+
+    def visit_Name(self, node):  # noqa: N802
+        # What is left of a dropped *args/**kwargs parameter in the body
+        # (e.g. in the default get_cache_key) is empty.
+        if isinstance(node.ctx, ast.Load):
+            if self.drop_args and node.id == self.vararg_name:
+                return ast.Tuple(elts=[], ctx=ast.Load())
+            if self.drop_kwargs and node.id == self.kwarg_name:
+                return ast.Dict(keys=[], values=[])
+        return node
 
     def visit_Call(self, node):  # noqa: N802
         node = self.generic_visit(node)
@@ -330,13 +342,17 @@ def optimize_mapper(
         for mname in sorted(method_defs):
             mdef = method_defs[mname]
 
+            vararg_name = mdef.args.vararg.arg if mdef.args.vararg else None
+            kwarg_name = mdef.args.kwarg.arg if mdef.args.kwarg else None
+
             mdef = _replace(mdef,
                     args=_replace(mdef.args,
                         vararg=None if drop_args else mdef.args.vararg,
                         kwarg=None if drop_kwargs else mdef.args.kwarg))
 
             mdef = _VarArgsRemover(
-                    drop_args=drop_args, drop_kwargs=drop_kwargs).visit(mdef)
+                    drop_args=drop_args, drop_kwargs=drop_kwargs,
+                    vararg_name=vararg_name, kwarg_name=kwarg_name).visit(mdef)
 
             if cache_key_expr is not None:
                 mdef = _CacheKeyInliner(cache_key_expr=cache_key_expr).visit(mdef)
